@@ -9,6 +9,33 @@ NOTE = ("Trusted: Coq 8.16.1 kernel + vm_compute; tools/gen_consts.py; the Rust 
 TECH = "machine-checked proof in Coq (Rocq) over a Gallina model + differential correspondence check against the Rust code"
 
 CLAIMED = {
+    "C02": {
+        "text": "Proved (props/C02.v): c02_binary_search_correct - the branch-free binary search of core::slice, as used by "
+                "insert_sorted_node, returns a correct insertion point on a sorted list; c02_candidates_stay_sorted and the three "
+                "preservation theorems - the candidate list of a search is sorted by XOR distance at its start and after every "
+                "response and timeout; c02_announce_to_closest_holders - the (at most 8) announce targets are the closest token "
+                "holders among all nodes the search heard of (with C03: each carries the token that node issued, the info-hash, our "
+                "id, the configured/implied port); c02_yield_all - an accepted answer puts exactly its values on the stream, in order, "
+                "once per occurrence; c02_dup_id_caveat - why distinct ids are required (the code's own TODO). Decided per run "
+                "(partial): that under the property's premises the search LEARNS and queries the network's 8 closest nodes - the real "
+                "node searches worlds of 1..300 (thorough: ..1000) honest responders (uniform / clustered around target / around the "
+                "searcher) and the checker compares announce targets with the true 8 closest, checks they stored the contact, and "
+                "compares the stream with all answers as multisets; every run is replayed through the Coq lookup model.",
+        "ref": "7/C02", "axioms": "none",
+        "note_extra": "PARTIAL: convergence (c02_all_closest_queried) is checker-decided on explored networks. The standard library's binary search is modelled from its source (core::slice::binary_search_by, branch-free variant).",
+    },
+    "C17": {
+        "text": "Theorems (props/C17.v): c17_len_formula - exact length of the encoding of every response/error; c17_reply_le_1500 - for "
+                "every state, source and query whose transaction id is at most 800 bytes (corollary: 32), the reply built by the "
+                "repaired handle_query encodes to at most 1500 bytes (all four query kinds, both error replies); c17_queries_small - "
+                "the node's own get_peers / find_node queries are exactly 101 / 98 bytes, an announce_peer at most 141 + digits + "
+                "|token|; c17_pinned_refuted - without the cap 180 IPv4 peers give a 1746-byte reply (the genuine defect repaired in "
+                "/repo commit 226d529). Tie: 1500 / 700 / 8 / 21 read from the source; trace validation of the handler; the length of "
+                "EVERY datagram handed to the socket in the simulated runs (60..210 stored peers, all want combinations, ids of "
+                "0..32 bytes).",
+        "ref": "7/C17", "axioms": "none",
+        "note_extra": "Outside the property's quantifier: a remote token longer than 1355 bytes would make the node's announce_peer exceed 1500 bytes.",
+    },
     "C15": {
         "text": "Proved (props/C15.v): c15_first_round_no_panic - with the repaired contact list (union of routers and starting nodes) "
                 "and a fresh shared id the (address,id) registry's uniqueness assertion cannot fail, for every router set and node "
